@@ -362,12 +362,18 @@ pub fn argsweep_scenario(spec: &SoloSpec, k: u64) -> Scenario {
 // ------------------------------------------------------------------------------------------
 // table sweeps
 
-const TABLE_PROGRAMS: [&[&str]; 6] = [
+/// consumer programs around one GLOBAL: the callable meets REDUCE with each argument shape (empty,
+/// one scalar, one container, two), NEWOBJ, BUILD, OBJ and the memo
+const TABLE_PROGRAMS: [&[&str]; 10] = [
     &["GLOBAL", "EMPTY_TUPLE", "REDUCE"],
+    &["GLOBAL", "NONE", "TUPLE1", "REDUCE"],
+    &["GLOBAL", "EMPTY_LIST", "TUPLE1", "REDUCE"],
     &["GLOBAL", "EMPTY_TUPLE", "NEWOBJ"],
+    &["GLOBAL", "NONE", "NONE", "TUPLE2", "REDUCE"],
     &["GLOBAL", "NONE", "BUILD"],
     &["GLOBAL", "EMPTY_TUPLE", "REDUCE", "EMPTY_DICT", "BUILD"],
     &["MARK", "GLOBAL", "OBJ"],
+    &["MARK", "GLOBAL", "NONE", "OBJ"],
     &["GLOBAL", "BINPUT", "POP", "BINGET"],
 ];
 
@@ -399,7 +405,7 @@ pub fn table_count(spec: &SoloSpec, tier: Tier) -> u64 {
     }
     let progs = match (spec.prop, tier) {
         ("C11", _) | (_, Tier::Thorough) => TABLE_PROGRAMS.len(),
-        _ => 2,
+        _ => 4,
     };
     (progs * 6 * 65_536) as u64
 }
